@@ -476,3 +476,14 @@ def scrambled(pt, text, rng):
             rng.shuffle(ivs)
         d['intervals'] = ivs
     return pt.create_annotation(**d)
+
+
+def hollowed(pt, text):
+    """An annotation equal to parse(text) that holds an EMPTY residue-modification dictionary where parse() leaves None -
+    the state slice()/digest() give every peptide cut from a protein whose modified residues lie elsewhere, and the state
+    pop_internal_mod() leaves behind.  Returned unchanged (plain parse) when the peptide has residue modifications."""
+    a = pt.parse(text)
+    if not a.has_internal_mods():
+        a.add_internal_mod(0, 'Marker')
+        a.pop_internal_mod(0)
+    return a
